@@ -28,8 +28,10 @@ class JSObj:
 
 class JSArr:
     """array / typed array with identity: contents live in the state's array heap st.ghost[('jsheap',)] : id -> (index -> value)"""
-    def __init__(self, ident, length, kind='num'):
+    def __init__(self, ident, length, kind='num', off=None, plain=None):
         self.ident, self.length, self.kind = ident, length, kind
+        self.off = off          # typed-array views (subarray) start at an offset into the shared buffer
+        self.plain = plain      # z3 Bool: `array.constructor === Array` (a plain JS array rather than a typed array)
 
 class JSTuple:
     def __init__(self, items):
@@ -78,6 +80,13 @@ class JSExec(GoExec, SpecMixin, CallsMixin):
                 self.jscontracts.setdefault(ps[1] if len(ps) >= 2 else ps[0], c)
                 self.jsvariants.setdefault(ps[1] if len(ps) >= 2 else ps[0], []).append(c)
         self.throws = []
+        self.js_consts = {}
+        for f, d in (jsdump or {}).items():
+            for stt in d.get('program', {}).get('body', []):
+                if stt.get('type') == 'VariableDeclaration':
+                    for dd in stt['declarations']:
+                        if dd.get('init') and dd['init'].get('type') == 'Literal' and isinstance(dd['init'].get('value'), int) and not isinstance(dd['init'].get('value'), bool):
+                            self.js_consts[dd['id']['name']] = dd['init']['value']
         self.u32view = {}
         self.dmcache = {}
         self.tzinfo = {}
@@ -221,6 +230,7 @@ class JSExec(GoExec, SpecMixin, CallsMixin):
         if n == 'undefined': return UNDEF
         if n == 'NaN': return MaybeNaN(self.num(0), z3.BoolVal(True))
         if n == 'Infinity': raise Unsupported('Infinity')
+        if n in self.js_consts: return self.num(self.js_consts[n])
         return JSFunc(n)
 
     def js_SequenceExpression(self, st, e):
@@ -333,6 +343,9 @@ class JSExec(GoExec, SpecMixin, CallsMixin):
             return a.undef if op == '===' else z3.Not(a.undef)
         if op in ('===', '!==', '==', '!=') and isinstance(a, JSObj) and isinstance(b, JSFunc) and b.name.endswith('.nil') and '$nil' in a.fields:
             return a.fields['$nil'] if op in ('===', '==') else z3.Not(a.fields['$nil'])
+        if op in ('===', '!==', '==', '!=') and isinstance(a, JSFunc) and isinstance(b, JSFunc) and a.name == 'arrayctor' and b.name == 'Array':
+            if a.of.plain is None: raise Unsupported('array kind unknown')
+            return a.of.plain if op in ('===', '==') else z3.Not(a.of.plain)
         if op in ('===', '!==', '==', '!=') and isinstance(a, JSFunc) and isinstance(b, JSFunc) and (a.name.endswith('.nativeArray') or b.name.endswith('.nativeArray')):
             na = a if a.name.endswith('.nativeArray') else b
             fl = getattr(na, 'flag', None)
@@ -567,6 +580,9 @@ class JSExec(GoExec, SpecMixin, CallsMixin):
             if isinstance(obj, JSObj):
                 obj.fields[name] = v      # objects created in the function are mutable records
                 return
+            if isinstance(obj, JSArr) and name == 'length' and getattr(obj, 'fresh', False):
+                obj.length = v            # resizing a freshly created plain array (new slots are undefined until written)
+                return
         raise Unsupported('assignment target %s' % target['type'])
 
     # arrays with identity ------------------------------------------------------------------------
@@ -577,13 +593,23 @@ class JSExec(GoExec, SpecMixin, CallsMixin):
 
     def arr_read(self, st, a, i, line):
         if self.mode == 'bv': i = z3.BV2Int(i, True)
+        if a.off is not None: i = a.off + i
         v = z3.Select(z3.Select(self.heap(st), a.ident), i)
         return v
+
+    def new_array(self, st, n, kind='num', plain=None):
+        ident = fresh('arr.id'); st.assume(ident > 0)
+        for r in st.meta.get('arrids', []): st.assume(ident != r)
+        st.meta['arrids'] = st.meta.get('arrids', []) + [ident]
+        a = JSArr(ident, n, kind, plain=plain); a.fresh = True
+        st.meta['fresh_js'] = set(st.meta.get('fresh_js', set())) | {ident.get_id()}
+        return a
 
     def arr_write(self, st, a, i, v, line):
         h = self.heap(st)
         if a.kind == 'u8':
             v = self.touint32(v) % 256
+        if a.off is not None: i = a.off + i
         st.ghost[('jsheap',)] = z3.Store(h, a.ident, z3.Store(z3.Select(h, a.ident), i, v))
 
     def js_MemberExpression(self, st, e):
@@ -610,6 +636,12 @@ class JSExec(GoExec, SpecMixin, CallsMixin):
             return obj.length if name == 'length' else UNDEF
         if isinstance(obj, JSArr) and name == 'length':
             return obj.length
+        if isinstance(obj, JSArr) and name == 'subarray':
+            if obj.plain is None: raise Unsupported('array kind unknown')
+            return z3.Not(obj.plain)        # only typed arrays have subarray
+        if isinstance(obj, JSArr) and name == 'constructor':
+            f = JSFunc('arrayctor'); f.of = obj
+            return f
         if isinstance(obj, JSObj):
             if name == 'constructor':
                 return JSFunc('ctor:' + (obj.ctor or '?'))
@@ -637,6 +669,12 @@ class JSExec(GoExec, SpecMixin, CallsMixin):
             return self.construct(st, callee.name[1:], args, self.line(e))
         if isinstance(callee, JSObj) and callee.ctor == 'SliceType':
             return self.construct(st, 'Slice', args, self.line(e))
+        if isinstance(callee, JSFunc) and callee.name == 'arrayctor':
+            n = self.unopt(st, args[0], self.line(e))
+            a = self.new_array(st, n, callee.of.kind, plain=callee.of.plain)
+            h = self.heap(st)
+            st.ghost[('jsheap',)] = z3.Store(h, a.ident, z3.K(I, z3.IntVal(0)))       # typed arrays are zero-filled
+            return a
         if isinstance(callee, JSFunc) and callee.name == 'typ.nativeArray':
             n = self.unopt(st, args[0], self.line(e))
             ident = fresh('arr.id'); st.assume(ident > 0)
@@ -719,11 +757,49 @@ class JSExec(GoExec, SpecMixin, CallsMixin):
                     # String.prototype.substring clamps and swaps; contracts only call it with 0 <= lo <= hi <= length
                     self.oblige(st, 'substring-args@%s' % line, z3.And(0 <= lo, lo <= hi, hi <= obj.len), src=line)
                     return StrV(obj.arr, obj.off + lo, hi - lo)
-            if isinstance(obj, JSArr) and mname in ('subarray', 'slice', 'set'):
-                raise Unsupported('typed array method %s' % mname)
+            if isinstance(obj, JSArr) and mname == 'subarray':
+                # %TypedArray%.prototype.subarray(begin, end): a view on the same buffer (ECMA-262 23.2.3.30); arguments in range
+                lo, hi = self.ev(st, args[0]), self.ev(st, args[1])
+                self.oblige(st, 'subarray-args@%s' % line, z3.And(0 <= lo, lo <= hi, hi <= obj.length), src=line)
+                self.assumed.add('%TypedArray%.prototype.subarray returns a view sharing the buffer (ECMA-262)')
+                base = obj.off if obj.off is not None else z3.IntVal(0)
+                return JSArr(obj.ident, hi - lo, obj.kind, off=base + lo, plain=z3.BoolVal(False))
+            if isinstance(obj, JSArr) and mname == 'slice':
+                # Array.prototype.slice(begin, end): a new array holding a shallow copy of the range (ECMA-262 23.1.3.28)
+                lo, hi = self.ev(st, args[0]), self.ev(st, args[1])
+                self.oblige(st, 'slice-args@%s' % line, z3.And(0 <= lo, lo <= hi, hi <= obj.length), src=line)
+                self.assumed.add('Array.prototype.slice returns a new array with a shallow copy of the range (ECMA-262)')
+                a = self.new_array(st, hi - lo, obj.kind, plain=obj.plain)
+                h = self.heap(st)
+                base = obj.off if obj.off is not None else z3.IntVal(0)
+                na = fresh('slice.arr', ArrII); k = fresh('k!sl')
+                st.assume(z3.ForAll([k], z3.Implies(z3.And(0 <= k, k < hi - lo), z3.Select(na, k) == z3.Select(z3.Select(h, obj.ident), base + lo + k))))
+                st.ghost[('jsheap',)] = z3.Store(h, a.ident, na)
+                return a
+            if isinstance(obj, JSArr) and mname == 'set':
+                # %TypedArray%.prototype.set(source[, offset]): copies source into this at offset, correct also when the buffers
+                # overlap (ECMA-262 23.2.3.26 clones an overlapping source first)
+                src = self.ev(st, args[0])
+                at = self.ev(st, args[1]) if len(args) > 1 else z3.IntVal(0)
+                if not isinstance(src, JSArr): raise Unsupported('set() from a non-array')
+                self.oblige(st, 'set-args@%s' % line, z3.And(at >= 0, at + src.length <= obj.length), src=line)
+                self.assumed.add('%TypedArray%.prototype.set copies with memmove semantics (ECMA-262)')
+                h = self.heap(st)
+                sb = src.off if src.off is not None else z3.IntVal(0)
+                db = obj.off if obj.off is not None else z3.IntVal(0)
+                old_dst, old_src = z3.Select(h, obj.ident), z3.Select(h, src.ident)
+                na = fresh('set.arr', ArrII); k = fresh('k!set')
+                st.assume(z3.ForAll([k], z3.Select(na, k) == z3.If(z3.And(db + at <= k, k < db + at + src.length), z3.Select(old_src, sb + (k - db - at)), z3.Select(old_dst, k))))
+                st.ghost[('jsheap',)] = z3.Store(h, obj.ident, na)
+                return UNDEF
+            if isinstance(obj, JSArr):
+                raise Unsupported('array method %s' % mname)
             raise Unsupported('method call .%s on %r @%s' % (mname, obj, line))
         if c['type'] == 'Identifier':
             name = c['name']
+            lv = st.env.get(name)
+            if isinstance(lv, JSFunc) and lv.name.endswith('.zero'):
+                return fresh('zero')          # zero value of the element type: opaque
             if name == '$fround':
                 v = self.ev(st, args[0])
                 if not (isinstance(v, z3.ExprRef) and z3.is_fp(v)): raise Unsupported('$fround outside mode fp')
@@ -830,6 +906,26 @@ class JSExec(GoExec, SpecMixin, CallsMixin):
 
     def jst_ContinueStatement(self, st, s):
         raise ContinueEx(None)
+
+    def jst_SwitchStatement(self, st, s):
+        d = self.ev(st, s['discriminant'])
+        cases = s['cases']
+        start = None
+        for i, c in enumerate(cases):
+            if c.get('test') is None:
+                continue
+            if self.fork(st, self.binop_js(st, '===', d, self.ev(st, c['test']), self.line(s))):
+                start = i; break
+        if start is None:
+            for i, c in enumerate(cases):
+                if c.get('test') is None: start = i
+        if start is None:
+            return
+        try:
+            for c in cases[start:]:          # fall through until a break
+                self.block(st, c['consequent'])
+        except BreakEx:
+            pass
 
     def jst_WhileStatement(self, st, s):
         self.js_loop(st, s, None, s['test'], None, s['body'])
@@ -979,6 +1075,15 @@ class JSExec(GoExec, SpecMixin, CallsMixin):
         raise Unsupported('havoc of JS value %r' % (old,))
 
     # ------------------------------------------------------------------ contracts
+    def old_binds(self, env):
+        """names inside old(...) denote the JS locals of the entry state (array contents are read from the entry heap); bound
+        quantifier variables and `result` keep their current binding"""
+        b = self.spec_binds(env.old)
+        for k, v in env.binds.items():
+            if k not in b:
+                b[k] = v
+        return b
+
     def spec_binds(self, st):
         """JS locals are visible to contract expressions under their own names"""
         b = {}
@@ -996,8 +1101,10 @@ class JSExec(GoExec, SpecMixin, CallsMixin):
         if isinstance(v, MaybeNaN): return v.val
         if isinstance(v, OptNum): return v.val
         if isinstance(v, JSArr):
-            s = SliceV([z3.Select(self.heap(st), v.ident)], z3.IntVal(0), v.length, v.length, None, z3.BoolVal(False))
+            s = SliceV([z3.Select(self.heap(st), v.ident)], v.off if v.off is not None else z3.IntVal(0), v.length, v.length, None, z3.BoolVal(False))
             s.ident = v.ident
+            s.isfresh = v.ident.get_id() in st.meta.get('fresh_js', set())
+            s.plain = v.plain if v.plain is not None else z3.BoolVal(False)
             return s
         if isinstance(v, JSObj):
             return StructV(None, {k: self.to_spec(st, x, depth + 1) for k, x in v.fields.items() if x is not v})
@@ -1055,6 +1162,8 @@ class JSExec(GoExec, SpecMixin, CallsMixin):
             nil = fresh(name + '.nil', B)
             st.pc += [ln <= cap, off + cap <= arr.length, z3.Implies(nil, z3.And(ln == 0, cap == 0))] if self.mode != 'bv' else []
             return JSObj({'$array': arr, '$offset': off, '$length': ln, '$capacity': cap, '$nil': nil}, ctor='Slice', ref=fresh('obj'))
+        if ty == 'elemtype':
+            return JSObj({'kind': self.make_param(st, name + '.kind', 'nat')}, ctor='Type', ref=fresh('obj'))
         if ty == 'slicetype':
             return JSObj({'$isArray': fresh(name + '.isArray', B), 'elem': JSObj({}, ctor='Type', ref=fresh('obj'))}, ctor='SliceType', ref=fresh('obj'))
         if ty.startswith('arrptr'):     # pointer to an array of static length: the array itself, or the nil pointer object
@@ -1065,7 +1174,8 @@ class JSExec(GoExec, SpecMixin, CallsMixin):
         if ty in ('arr', 'u8arr'):
             ident = fresh(name + '.id'); n = fresh(name + '.length')
             st.pc += [ident > 0, n >= 0, n <= MAXLEN]
-            return JSArr(ident, n, 'u8' if ty == 'u8arr' else 'num')
+            st.meta['arrids'] = st.meta.get('arrids', []) + [ident]        # later allocations are distinct from every existing array
+            return JSArr(ident, n, 'u8' if ty == 'u8arr' else 'num', plain=(z3.BoolVal(False) if ty == 'u8arr' else fresh(name + '.plain', B)))
         raise Unsupported('JS parameter type %s' % ty)
 
     def find_func(self, name, file=None):
@@ -1151,6 +1261,7 @@ class JSExec(GoExec, SpecMixin, CallsMixin):
         self.frame = fr
         self.loop_cache = {}
         self.mode = c.get('mode')[0].text.strip() if c.get('mode') else 'jn'
+        self.prune = bool(c.get('prune'))
         st = State()
         ptypes = {}
         for cl in c.get('param'):
